@@ -120,7 +120,7 @@ void harness (void)
     /* C11 / C15: the read-size hint.  While descriptors are held (a message carrying fds is only partly buffered), the next read must not go past the end
      * of the message that is being completed — bytes of the following message read without room for its descriptors would lose them. */
     DBusString *bufp = 0; int max = -1; dbus_bool_t may = 99; int needed = fr[FRAMES].hl + fr[FRAMES].bl;
-    for (i = 0; i < FRAMES; i++) VF_ASSUME (fr[i].framing_valid && fr[i].hl + fr[i].bl > 16);   /* complete frames in front are well-framed (else the loader has already declared corruption) and carry at least one header field: a bare 16-byte frame left buffered by an out-of-memory retry would trip _dbus_assert (needed > DBUS_MINIMUM_HEADER_SIZE) — observation O2 in DESIGN.md */
+    for (i = 0; i < FRAMES; i++) VF_ASSUME (fr[i].framing_valid);         /* complete frames in front are well-framed (else the loader has already declared corruption); a bare 16-byte frame (no header fields, no body) is well-framed too: F23 */
     _dbus_message_loader_get_buffer (&loader, &bufp, &max, &may);
     VF_ASSERT (bufp == &loader.data && loader.buffer_outstanding, "the loader's own buffer is handed out");
     if (fds0 == 0) VF_ASSERT (max == DBUS_MAXIMUM_MESSAGE_LENGTH && may == TRUE, "nothing held: read freely");
